@@ -381,7 +381,7 @@ func (s *State) mapGetRaw(m *types.Map, ref, key *Term) *Value {
 // mapGet returns m[key] (zero value when absent).
 func (s *State) mapGet(m *types.Map, ref, key *Term) *Value {
 	raw := s.mapGetRaw(m, ref, key)
-	has := s.mapHas(m, ref, key)
+	has := And(Neq(ref, mkInt(0)), s.mapHas(m, ref, key)) // reading a nil map yields the zero value
 	v := valueIte(has, raw, zeroValue(m.Elem()))
 	s.assumeLoaded(v)
 	return v
